@@ -365,6 +365,9 @@ inductive Label where
   | wBind (w : Wid)                    -- `sock.bind(path)`
   | wListen (w : Wid)                  -- `sock.listen()`
   | wAnnounce (w : Wid)                -- `on_bound(path)`: the `UNIX:<path>` line is written
+  | wLost (w : Wid)                    -- start-up fails because the path changed under the worker: `_unlink_stale_unix_socket` finds the
+                                       -- entry gone between its `lstat` and `unlink`, or `os.lstat(path)` right after `bind` finds the
+                                       -- fresh socket already removed (`FileNotFoundError`; the process dies)
   | release (t : Tid)
   | ret (t : Tid)
   | raised (t : Tid)
@@ -511,6 +514,11 @@ def step (sh : LShape) (idle : Nat) (s : St) : Label → Option St
     | .bound => if sh.listenFirst then some (emit idle { s with ws := upd s.ws w .listening } (.ready w)) else none
     | .announced =>
       if sh.listenFirst then none else some (emit idle { s with ws := upd s.ws w (.accepting s.now) } (.ready w))
+    | _ => none
+  | .wLost w =>
+    match s.ws w with
+    | .prechecked => if s.sock = none then some (emit idle { s with ws := upd s.ws w .gone } (.exit w)) else none
+    | .bound => if s.sock = some w then none else some (emit idle { s with ws := upd s.ws w .gone } (.exit w))
     | _ => none
   | .wAnnounce w =>
     match s.ws w with
